@@ -246,3 +246,65 @@ def send_loop_provenance(ctx, W):
         out.append(("payload-is-this-iterations-response", okm, "the datagram sent encodes this iteration's make_response(..)",
                     "the datagram sent is %s" % values.fmt(pay), sr.loc(sb)))
     return out, len(sends)
+
+
+def registrations(ctx, W):
+    """Every `Poll::register` call of the server module: dict(fn, bb, source_ty, token, opts) with opts the name of the PollOpt constructor(s)."""
+    out = []
+    for f in W.prog.fns.values():
+        if not f.path.startswith("roughenough::server::") or f.derived:
+            continue
+        ev = W.ev(f.path)
+        for bb, t in f.calls():
+            p = strip_generics(t["fn"].get("path", ""))
+            if p.endswith("Poll::register") or p.endswith("Poll::reregister"):
+                a = ev.call_args(bb)
+                opts = W.expand(a[4]) if len(a) > 4 else None
+                names = sorted({callee_name(x[1]) for x in values.subterms(opts) if is_call(x) and "PollOpt" in x[1]}) if opts else []
+                out.append({"fn": f, "bb": bb, "source_ty": t["arg_tys"][1], "token": W.expand(a[2]), "opts": names, "opts_term": opts})
+    return out
+
+
+def batch_loop(ctx, W):
+    """The loop of collect_requests that contains the recv_from call: dict(header, kind, iterations(batch_size)->int|None)."""
+    fn = ctx.fn(COLLECT)
+    ev = W.ev(COLLECT)
+    rb, ct, count, addr = recv_count_term(W)
+    ls = sorted((l for l in fn.loops() if rb in l["body"]), key=lambda l: len(l["body"]))
+    if not ls:
+        raise AnchorMissing("a loop around recv_from in collect_requests")
+    lp = ls[-1]
+    src = None
+    for b in sorted(lp["body"]):
+        t = fn.blocks[b].term
+        if t["k"] == "call" and callee_name(t["fn"].get("path", "")) == "next" and fn.dominates(b, rb):
+            src = W.expand(ev.call_args(b)[0])
+            while isinstance(src, tuple) and src and src[0] == "reader":
+                src = src[1]
+    bs = ("field", ("param", COLLECT, 1), "batch_size")
+
+    def evalt(t, n):
+        if t == bs:
+            return n
+        if t[0] == "int":
+            return t[1]
+        if t[0] == "cast":
+            return evalt(t[3], n)
+        if t[0] == "bin" and t[1] in ("Add", "Sub", "Mul"):
+            a, b = evalt(t[2], n), evalt(t[3], n)
+            if a is None or b is None:
+                return None
+            return {"Add": a + b, "Sub": a - b, "Mul": a * b}[t[1]]
+        return None
+
+    def iterations(n):
+        if src is None:
+            return None
+        if src[0] == "agg" and str(src[1]).endswith("Range::Range") and len(src[2]) == 2:
+            lo, hi = evalt(src[2][0], n), evalt(src[2][1], n)
+            return None if lo is None or hi is None else max(hi - lo, 0)
+        if is_call(src) and callee_name(src[1]) == "new" and "RangeInclusive" in src[1]:
+            lo, hi = evalt(W.expand(src[2][0]), n), evalt(W.expand(src[2][1]), n)
+            return None if lo is None or hi is None else max(hi - lo + 1, 0)
+        return None
+    return {"header": lp["header"], "source": src, "iterations": iterations, "recv": rb, "fn": fn}
